@@ -498,7 +498,7 @@ impl DhtNetworkManager {
         self.dht
             .write()
             .await
-            .store(&DhtKey::from_bytes(key), value)
+            .store_local(&DhtKey::from_bytes(key), value)
             .await
             .map_err(|e| {
                 P2PError::Dht(crate::error::DhtError::StoreFailed(
@@ -997,9 +997,9 @@ impl DhtNetworkManager {
                         info!("Found value via iterative lookup from {}", source);
 
                         // Cache locally
-                        let mut dht_guard = self.dht.write().await;
+                        let dht_guard = self.dht.write().await;
                         if let Err(e) = dht_guard
-                            .store(&DhtKey::from_bytes(*key), value.clone())
+                            .store_local(&DhtKey::from_bytes(*key), value.clone())
                             .await
                         {
                             warn!("Failed to cache retrieved value: {}", e);
